@@ -68,7 +68,7 @@ CHECKS = {
             KANI_NOTE + "; F17 model field as type parameter (generic algorithm code is winterfell's); sizes >= 8, extension fields, threads outside",
             "DESIGN.md section 4 C12"),
     "C13": ("bounded model checking (Kani/CBMC) of the generic polynomial helpers instantiated at F17 against schoolbook definitions",
-            "eval, eval_many, add, sub, mul, mul_by_scalar, div (monic linear divisor), syn_div, syn_div_in_place, syn_div_roots_in_place, degree_of, remove_leading_zeros, poly_from_roots, interpolate, interpolate_batch "
+            "eval, eval_many, add, sub, mul, mul_by_scalar, div (monic linear divisor; non-monic linear divisor with a leading-zero pad), syn_div, syn_div_in_place, syn_div_roots_in_place (every root pair, zero and repeated roots included), degree_of, remove_leading_zeros, poly_from_roots, interpolate, interpolate_batch "
             "for all coefficient vectors of length <= 4 under the documented preconditions.",
             KANI_NOTE + "; interpolation points concrete (two triples); one known finding (x-coordinate zero) asserted by a witness harness; real fields outside",
             "DESIGN.md section 4 C13"),
